@@ -889,6 +889,10 @@ class ExecMixin:
                 continue
             cands.append(("ge0", (cell, kp)))
             cands.append(("le0", (cell, kp)))
+            # small constant lower bounds (a counter that stops at 1, a remaining length that stays positive)
+            for cst in (2, 1):
+                if entails(st0.cons, c_le(Lin.const(cst), old.lin), self.ranges):
+                    cands.append(("gec", (cell, kp), cst))
             for (c2, kp2, v2) in neigh:
                 if (c2, kp2) == (cell, kp):
                     continue
@@ -926,6 +930,8 @@ class ExecMixin:
         a = self.leaf_lin(st, *c[1])
         if a is None:
             return None
+        if kind == "gec":
+            return c_le(Lin.const(c[2]), a)
         if kind in ("ge0", "le0"):
             e0 = self._entry.get((lid, c[1]))
             if e0 is None:
@@ -953,6 +959,8 @@ class ExecMixin:
             return "%s - %s - %s conserved" % (self.leaf_name(*c[1]), self.leaf_name(*c[2]), self.leaf_name(*c[3]))
         if c[0] == "lin2":
             return "%s %+d*%s conserved" % (self.leaf_name(*c[1]), c[3], self.leaf_name(*c[2]))
+        if c[0] == "gec":
+            return "%s >= %d" % (self.leaf_name(*c[1]), c[2])
         if c[0] in ("ge0", "le0"):
             return "%s %s entry" % (self.leaf_name(*c[1]), ">=" if c[0] == "ge0" else "<=")
         return "%s %s %s" % (self.leaf_name(*c[1]), "<=" if c[0] == "le" else ">=", self.leaf_name(*c[2]))
